@@ -15,7 +15,7 @@ Open Scope R_scope.
 
 Inductive obs :=
 | OVal (q tol : R)   (* finite value q (exact binary64), tolerance tol *)
-| OPInf | ONInf | ONaN | OErrInt | OErrNaN | OPanic | OCtorErr.
+| OPInf | ONInf | ONaN | OErrInt | OErrNaN | OPanic | OCtorErr | OErrDim.
 
 Definition agrees (r : res) (o : obs) : Prop :=
   match o with
@@ -27,6 +27,7 @@ Definition agrees (r : res) (o : obs) : Prop :=
   | OErrNaN => r = ErrNaN
   | OPanic => r = Panic
   | OCtorErr => r = CtorErr
+  | OErrDim => r = ErrDim
   end.
 
 (* logged value of a special function at one argument *)
@@ -95,7 +96,7 @@ Ltac er_step :=
   end.
 
 Ltac er_red :=
-  cbn [eadd esub emul eneg eabs eexp elerfc egamP eltb eis_nan eis_ninf rmap fst snd negb orb andb].
+  cbn [eadd esub emul eneg eabs eexp elerfc egamP eltb eis_nan eis_ninf eis_zero rmap fst snd negb orb andb].
 
 (* use the logged special-function values *)
 Ltac use_logged :=
@@ -119,9 +120,13 @@ Ltac solve_case :=
   rewrite ?Ztrunc_IZR, ?Ztrunc_half;
   cbv -[Rplus Rminus Rmult Rdiv Ropp Rinv Rabs exp ln Rpower sqrt PI IZR Rltb Rleb Reqb Rpos Rneg
         is_intb Zfloor Ztrunc
-        eadd esub emul ediv eneg eabs eexp elog elog1p epow inf_times elgam elerfc egamP eltb eis_nan eis_ninf
+        eadd esub emul ediv eneg eabs eexp elog elog1p epow inf_times elgam elerfc egamP eltb eis_nan eis_ninf eis_zero
         agrees at1 at2 near1];
   er_red; use_logged; repeat (er_step; er_red; use_logged);
+  (* a comparison of two values that are EQUAL in exact arithmetic (LogAdd of a partial sum with an equal
+     weight) cannot be decided by enclosures: both orders are certified *)
+  repeat (match goal with |- context [Rltb ?a ?b] => destruct (Rltb a b) end;
+          er_red; repeat (er_step; er_red; use_logged));
   cbv [agrees];
   first [ reflexivity
         | eexists; split; [ reflexivity | use_logged; use_near; interval with (i_prec 60) ] ].
